@@ -83,8 +83,23 @@ func checkC17(e *Engine, r *Report) {
 						stored = st.Val
 					}
 				})
+				delivered := a[1]
+				// `a.updateConfig(a.groupCfg)`: a load of the field after the store delivers the stored value
+				if f, _ := loadedField(delivered); f == fGroup {
+					if ld, ok := delivered.(ssa.Instruction); ok {
+						var last *ssa.Store
+						AllInstrs(upGroup, func(in ssa.Instruction) {
+							if st, ok := in.(*ssa.Store); ok && fieldOfAddr(st.Addr) == fGroup && dominatesInstr(st, ld) && (last == nil || dominatesInstr(last, st)) {
+								last = st
+							}
+						})
+						if last != nil {
+							delivered = last.Val
+						}
+					}
+				}
 				r.Check("R2:group-delivers-what-it-stored", "R2 group never overrides node", "the configuration delivered is the one just remembered as group configuration", e.InstrPos(c), upGroup,
-					stored != nil && (a[1] == stored || sameValue(a[1], stored)), "", true)
+					stored != nil && (delivered == stored || sameValue(delivered, stored)), "", true)
 			}
 		}
 	}
